@@ -175,3 +175,94 @@ func cmdCross(args []string) int {
 	os.WriteFile(mpath, b, 0o644)
 	return 0
 }
+
+// cmdCrossDir analyses every *.diff below a directory (e.g. behaviour-preserving refactorings written by
+// someone who does not know the checks) against all registered checks and prints the obligations that turn
+// bad: on a behaviour-preserving patch every line printed is a false alarm.
+func cmdCrossDir(args []string) int {
+	if len(args) < 1 {
+		fmt.Println("usage: kcheck crossdir <dir> [substring]")
+		return 2
+	}
+	root := args[0]
+	only := ""
+	if len(args) > 1 {
+		only = args[1]
+	}
+	repo := "/repo"
+	var lastNotes []string
+	runAll := func(ov map[string][]byte) (map[string]map[string]bool, error) {
+		p, err := load.Load(load.Config{Dir: repo, Overlay: ov})
+		if err != nil {
+			return nil, err
+		}
+		defer p.Release()
+		lastNotes = p.Canon.Notes
+		out := map[string]map[string]bool{}
+		for _, id := range rules.IDs() {
+			c := rules.Get(id)
+			rep := oblig.NewReport(id, "quick")
+			func() {
+				defer func() {
+					if e := recover(); e != nil {
+						rep.Undecided("checker", "panic", "-", fmt.Sprint(e))
+					}
+				}()
+				c.Run(p, rep)
+			}()
+			out[id] = badKeys(rep)
+		}
+		return out, nil
+	}
+	base, err := runAll(nil)
+	if err != nil {
+		fmt.Println("base failed:", err)
+		return 2
+	}
+	var files []string
+	filepath.Walk(root, func(path string, info os.FileInfo, err error) error {
+		if err == nil && !info.IsDir() && strings.HasSuffix(path, ".diff") && strings.Contains(path, only) {
+			files = append(files, path)
+		}
+		return nil
+	})
+	sort.Strings(files)
+	nAlarm := 0
+	for _, f := range files {
+		rel, _ := filepath.Rel(root, f)
+		v := variant{Name: rel, Kind: "neutral", Patch: f}
+		ov, ok, why := overlayFor(v, repo, "/")
+		if !ok {
+			fmt.Printf("%-16s SKIP %s\n", rel, why)
+			continue
+		}
+		got, err := runAll(ov)
+		if err != nil {
+			fmt.Printf("%-16s LOAD-ERROR %v\n", rel, oblig.Short(err.Error(), 300))
+			continue
+		}
+		var lines []string
+		for id, keys := range got {
+			for k := range keys {
+				if !base[id][k] {
+					lines = append(lines, id+": "+k)
+				}
+			}
+		}
+		sort.Strings(lines)
+		if len(lines) == 0 {
+			fmt.Printf("%-16s silent\n", rel)
+			continue
+		}
+		nAlarm++
+		fmt.Printf("%-16s ALARM %d\n", rel, len(lines))
+		for _, n := range lastNotes {
+			fmt.Printf("      note: %s\n", n)
+		}
+		for _, l := range lines {
+			fmt.Printf("      %s\n", oblig.Short(l, 260))
+		}
+	}
+	fmt.Printf("%d patches, %d with alarms\n", len(files), nAlarm)
+	return 0
+}
